@@ -15,6 +15,9 @@ JOBS = [
       fuc=["myth_once_wait_until"], timeout=300),
   Job("c14.lemmas", TU, "h_lemmas", timeout=100),
 ]
+# the public API functions are one-line forwarders to the bodies under contract: checked mechanically (DESIGN §3.5b)
+from units.common_forward import forward_job
+JOBS = list(JOBS) + [forward_job("c14")]
 META = {
  "level": "proof",
  "level_text": "Rely/guarantee contracts on the real myth_once_body / try_set / wait_until: the election CAS, the single run of the init routine by the elected caller, and the return only after completion hold under arbitrary interference before every read and CAS; the waiting loop is closed by a loop contract.",
